@@ -168,8 +168,8 @@ def executions(chk, pool):
             sany(m)
     jobs = []
     for name in SCEN:
-        jobs.append((name, 'dfs', chk.seed, 50 if quick else 1500))
-        jobs.append((name, 'rnd', chk.seed + 5, 30 if quick else 800))
+        jobs.append((name, 'dfs', chk.seed, 50 if quick else 800))
+        jobs.append((name, 'rnd', chk.seed + 5, 30 if quick else 400))
     traces, origin, seen = [], [], set()
     for name, out, err in pool_map(_explore, jobs, chunksize=1):
         if err:
